@@ -290,6 +290,8 @@ def sibling_transcript(template: str, value: bytes, kind: str, rng: random.Rando
     probes.  -> normalised transcript (list of byte strings)."""
     demo = template in ('search', 'hdrfields', 'search-pair')
     w = World('dict', demo=demo, users={'user1': 'pass1'})
+    if rng.random() < 0.4:
+        w.segment_rng = random.Random(rng.randrange(1 << 30))   # delivery in several segments
     tr = []
     try:
         c = w.connect('a')
